@@ -23,7 +23,7 @@ COMPONENTS = {
 }
 ASSUMPTIONS = ['files do not change while the snapshot runs', 'path arguments are resolved (README); entries below a directory keep their traversal path',
                'no symlink cycles', 'scrypt work factors reduced (n<=8)']
-PROBES = ['empty_only_tree', 'dup_args', 'same_path_two_spellings', 'symlink_file', 'symlink_dir', 'preexisting_longer', 'preexisting_shorter', 'piece_knob', 'unaligned_max', 'min_eq_max']
+PROBES = ['large_files_and_chunks', 'empty_only_tree', 'dup_args', 'same_path_two_spellings', 'symlink_file', 'symlink_dir', 'preexisting_longer', 'preexisting_shorter', 'piece_knob', 'unaligned_max', 'min_eq_max']
 TIERS = {'quick': {'budget_s': 75, 'batch': 20}, 'thorough': {'budget_s': 900, 'batch': 40}}
 
 
@@ -34,6 +34,24 @@ def gen_case(seed, tier):
     mn, mx = ch['min_length'], ch['max_length']
     piece = rng.choice([None, None, 1, 3, 4, 5, 16, 64, 100, 1000])
     tree = gen.tree_spec(rng, mn=mn, mx=mx, piece=piece, max_size=6000)
+    brng = substream(seed, 'c01-big')
+    big = brng.random() < 0.06
+    if big:
+        # files and chunks of many kilobytes (whatever is special about "large" parts: block sizes, zero runs, sparse handling)
+        mn, mx = 4096, brng.choice([8192, 65536])
+        settings['chunking'] = {'min_length': mn, 'max_length': mx}
+        piece = None
+        tree = gen.tree_spec(brng, mn=mn, mx=mx, nfiles=brng.choice([1, 2, 3]), max_size=150_000, min_files=1)
+        for e in tree:
+            n = len(gen.spec_data(e))
+            k = brng.random()
+            if n and k < 0.35:
+                e['d'] = base64.b64encode(bytes(n)).decode()
+            elif n > 10 and k < 0.6:
+                a = brng.randrange(0, n // 2)
+                data = bytearray(gen.spec_data(e))
+                data[a:a + n // 2] = bytes(n // 2)
+                e['d'] = base64.b64encode(bytes(data)).decode()
     rels = [gen.spec_rel(e) for e in tree]
     dirs = sorted({os.path.dirname(r) for r in rels if os.path.dirname(r)})
     links = []
@@ -79,11 +97,11 @@ def gen_case(seed, tier):
         args = respelt
     args = [base64.b64encode(os.fsencode(a)).decode() for a in args]
     pre = None
-    if rng.random() < 0.4:
-        pre = {'mode': [rng.choice(['longer', 'shorter', 'different', 'nonempty', 'same']) for _ in range(4)],
+    if rng.random() < 0.4 or big:
+        pre = {'mode': [rng.choice(['longer', 'shorter', 'shorter-by-much', 'different', 'nonempty', 'same']) for _ in range(4)],
                'unrelated': rng.randrange(0, 3), 'seed': rng.randrange(1 << 30)}
     return {
-        'seed': seed, 'sched_seed': seed, 'settings': settings, 'tree': tree, 'links': links, 'args': args,
+        'seed': seed, 'sched_seed': seed, 'settings': settings, 'tree': tree, 'links': links, 'args': args, 'big': big,
         'N': rng.choice([1, 1, 2, 3, 4, 6]), 'flavour': rng.choice(['sync', 'async']),
         'lat_kind': rng.choice(['zero', 'uniform', 'heavy']), 'lat': rng.choice([0.001, 0.02]),
         'opts': world.SchedOpts.swarm(rng).as_dict(), 'piece': piece, 'pre': pre,
@@ -124,6 +142,9 @@ def run_case(case):
     W = harness.World(case['sched_seed'], 'c01', flavour=case['flavour'], lat_kind=case['lat_kind'], lat=case['lat'],
                       list_order=case['list_order'])
     try:
+        if case.get('big'):
+            W.env.block_size = 128_000      # (100 kB in 1-byte transfer blocks would only burn scheduler steps)
+            probes['large_files_and_chunks'] = 1
         src = W.dir / 'src'
         gen.materialize(src / 'data', case['tree'])
         (src / 'data').mkdir(parents=True, exist_ok=True)
@@ -200,6 +221,9 @@ def run_case(case):
                     probes['preexisting_longer'] = 1
                 elif m == 'shorter':
                     old = prng.randbytes(max(0, len(data) - prng.randrange(1, 10)))
+                    probes['preexisting_shorter'] = 1
+                elif m == 'shorter-by-much':
+                    old = prng.randbytes(prng.randrange(1, len(data))) if len(data) > 1 else b''
                     probes['preexisting_shorter'] = 1
                 elif m == 'different':
                     old = prng.randbytes(len(data))
